@@ -32,7 +32,12 @@ def _mk_graph(spec_):
         g.add_node(u, **lab)
     for (u, v, lab) in spec_['edges']:
         g.add_edge(u, v, **lab)
-    g.initial_nodes = set(spec_['initial'])
+    # both idioms: assign a new set, or add to the set the graph comes with
+    if len(spec_['nodes']) % 2:
+        g.initial_nodes = set(spec_['initial'])
+    else:
+        for u in spec_['initial']:
+            g.initial_nodes.add(u)
     return g
 
 
@@ -124,8 +129,12 @@ def h_graph_to_logic(ctx):
     f = ctx.fn(lg.graph_to_logic)
     with warnings.catch_warnings():
         warnings.simplefilter('ignore')
-        r = ctx.call(f, g, NODEVAR, ignore_initial, receptive=receptive,
-                     self_loops=self_loops, aut=aut, label='graph_to_logic')
+        if ctx.p.get('positional'):
+            # documented order: (g, nodevar, ignore_initial, receptive, self_loops, aut)
+            r = ctx.call(f, g, NODEVAR, ignore_initial, receptive, self_loops, aut, label='graph_to_logic')
+        else:
+            r = ctx.call(f, g, NODEVAR, ignore_initial, receptive=receptive,
+                         self_loops=self_loops, aut=aut, label='graph_to_logic')
     den = denote.Den(aut.vars, w.z, nodes=nodesref)
     W = denote.W
     N = den.var_int(NODEVAR)
